@@ -455,6 +455,7 @@ type Solver struct {
 	timeoutMs int
 	pendingPop bool
 	nameSeq int
+	hung    bool // the watchdog killed the solver: it ignored its own per-query timeout
 }
 
 func NewSolver(bin string, timeoutMs int) (*Solver, error) {
@@ -632,7 +633,14 @@ func (s *Solver) Check(pc []*Term, extra *Term) Result {
 		s.send(fmt.Sprintf("(assert %s)", er))
 	}
 	s.send("(check-sat)")
+	// watchdog: z3 does not always honour (set-option :timeout) (seen with integer division terms); a solver that is
+	// silent for twice its timeout plus 10 s is killed and the job ends as an error (inconclusive), never as a verdict
+	wd := time.AfterFunc(time.Duration(2*s.timeoutMs)*time.Millisecond+10*time.Second, func() {
+		s.hung = true
+		s.cmd.Process.Kill()
+	})
 	line := s.readLine()
+	wd.Stop()
 	var r Result
 	switch strings.TrimSpace(line) {
 	case "sat":
@@ -658,6 +666,9 @@ func (s *Solver) Check(pc []*Term, extra *Term) Result {
 func (s *Solver) readLine() string {
 	line, err := s.out.ReadString('\n')
 	if err != nil {
+		if s.hung {
+			panic("solver ignored its per-query timeout and was killed (inconclusive)")
+		}
 		panic("solver died: " + err.Error())
 	}
 	if s.Log != nil {
